@@ -12,7 +12,9 @@ from __future__ import annotations
 from mc.env.stackworld import NcpEzsp
 
 ASSUMPTIONS = [
-    "formNetwork promotes the staged initial security state and staged frame counters to the running network; leaveNetwork and tokenFactoryReset erase network, security, counters and child table",
+    "formNetwork promotes the staged initial security state to the running network; leaveNetwork and tokenFactoryReset erase network, security and child table",
+    "the outgoing NWK / APS frame counters are non-volatile tokens of their own: written by setValue while no network is running, kept across leaveNetwork, clearKeyTable and a reboot, "
+    "zeroed by formNetwork unless the initial security state carries NO_FRAME_COUNTER_RESET and by tokenFactoryReset unless excludeOutgoingFC is set",
     "getKey / exportKey return the network key with its sequence number and outgoing frame counter, and the (possibly hashed) preconfigured key as trust-centre link key",
     "exportKey: key index 1 of the network key type is the alternate network key (unset: zeros), higher indices and any multi-network index other than 0 fail",
     "getCurrentSecurityState reports GLOBAL_LINK_KEY and the hashed-link-key bits exactly as requested in the initial security state, plus HAVE_TRUST_CENTER_LINK_KEY",
@@ -34,8 +36,8 @@ class NetNcp(NcpEzsp):
         self.key_table = {}          # index -> (eui64 bytes, key bytes)
         self.children = {}           # index -> (eui64 bytes, nwk, type)
         self.staged_security = None
-        self.staged_nwk_fc = 0
-        self.staged_aps_fc = 0
+        self.nv_nwk_fc = 0           # frame-counter tokens (non-volatile, independent of the network token)
+        self.nv_aps_fc = 0
         self.security_frames = []    # every EmberInitialSecurityState received
         self.eui64_at_form = None
         self.config = {int(t.EzspConfigId.CONFIG_KEY_TABLE_SIZE): 0, int(t.EzspConfigId.CONFIG_ADDRESS_TABLE_SIZE): 8,
@@ -84,8 +86,6 @@ class NetNcp(NcpEzsp):
         super().rebooted()
         self.running = False
         self.staged_security = None
-        self.staged_nwk_fc = 0
-        self.staged_aps_fc = 0
         t = self.t
         self.config = {int(t.EzspConfigId.CONFIG_KEY_TABLE_SIZE): 0, int(t.EzspConfigId.CONFIG_ADDRESS_TABLE_SIZE): 8,
                        int(t.EzspConfigId.CONFIG_SECURITY_LEVEL): 5}
@@ -145,7 +145,9 @@ class NetNcp(NcpEzsp):
     def _formNetwork(self, a):
         if self.running or self.staged_security is None:
             return [self.st("formNetwork", "state")]
-        self.network = {"params": a["parameters"], "security": self.staged_security, "nwk_fc": self.staged_nwk_fc, "aps_fc": self.staged_aps_fc}
+        if not (int(self.staged_security.bitmask) & int(self.t.EmberInitialSecurityBitmask.NO_FRAME_COUNTER_RESET)):
+            self.nv_nwk_fc = self.nv_aps_fc = 0
+        self.network = {"params": a["parameters"], "security": self.staged_security}
         self.eui64_at_form = self.eui64()
         self.running = True
         self._stack_status(True)
@@ -161,6 +163,8 @@ class NetNcp(NcpEzsp):
         return [self.st("leaveNetwork")]
 
     def _tokenFactoryReset(self, a):
+        if not a.get("excludeOutgoingFC"):
+            self.nv_nwk_fc = self.nv_aps_fc = 0
         self.network = None
         self.running = False
         self.children = {}
@@ -180,10 +184,10 @@ class NetNcp(NcpEzsp):
         B = t.EmberKeyStructBitmask
         if which == "network":
             return t.EmberKeyStruct(bitmask=B.KEY_HAS_SEQUENCE_NUMBER | B.KEY_HAS_OUTGOING_FRAME_COUNTER, type=t.EmberKeyType.CURRENT_NETWORK_KEY,
-                                    key=sec.networkKey, outgoingFrameCounter=self.network["nwk_fc"], incomingFrameCounter=0,
+                                    key=sec.networkKey, outgoingFrameCounter=self.nv_nwk_fc, incomingFrameCounter=0,
                                     sequenceNumber=sec.networkKeySequenceNumber, partnerEUI64=t.EUI64(b"\x00" * 8))
         return t.EmberKeyStruct(bitmask=B.KEY_HAS_OUTGOING_FRAME_COUNTER | B.KEY_HAS_PARTNER_EUI64, type=t.EmberKeyType.TRUST_CENTER_LINK_KEY,
-                                key=sec.preconfiguredKey, outgoingFrameCounter=self.network["aps_fc"], incomingFrameCounter=0,
+                                key=sec.preconfiguredKey, outgoingFrameCounter=self.nv_aps_fc, incomingFrameCounter=0,
                                 sequenceNumber=0, partnerEUI64=t.EUI64(b"\xff" * 8))
 
     def _getKey(self, a):
@@ -229,7 +233,7 @@ class NetNcp(NcpEzsp):
         else:
             info = t.SecurityManagerNetworkKeyInfo(network_key_set=True, alternate_network_key_set=False,
                                                    network_key_sequence_number=self.network["security"].networkKeySequenceNumber,
-                                                   alt_network_key_sequence_number=0, network_key_frame_counter=self.network["nwk_fc"])
+                                                   alt_network_key_sequence_number=0, network_key_frame_counter=self.nv_nwk_fc)
         return [self.st("getNetworkKeyInfo"), info]
 
     def _getCurrentSecurityState(self, a):
@@ -387,9 +391,9 @@ class NetNcp(NcpEzsp):
                 return [bad]
             v = int.from_bytes(bytes(a["value"]), "little")
             if a["valueId"] == t.EzspValueId.VALUE_NWK_FRAME_COUNTER:
-                self.staged_nwk_fc = v
+                self.nv_nwk_fc = v
             else:
-                self.staged_aps_fc = v
+                self.nv_aps_fc = v
         return [ok]
 
     def _getAddressTableRemoteNodeId(self, a):
